@@ -79,6 +79,8 @@ type End struct {
 	r, w   *half
 	once   sync.Once
 	Closed chan struct{} // closed when Close has been called on this end
+	// OnClose, if set before use, is called once, synchronously, when Close is first called.
+	OnClose func()
 }
 
 // NewPipe returns two connected ends. Writes never block (unbounded buffer);
@@ -95,6 +97,9 @@ func (e *End) Write(p []byte) (int, error) { return e.w.write(p) }
 // local reads fail, peer writes fail.
 func (e *End) Close() error {
 	e.once.Do(func() {
+		if e.OnClose != nil {
+			e.OnClose()
+		}
 		e.w.closeWrite()
 		e.r.closeRead(io.ErrClosedPipe)
 		close(e.Closed)
